@@ -42,6 +42,8 @@ def gen_doc(rng, nested=True):
         for _ in range(rng.choice([0, 1, 1, 2, 3])):
             body += rng.choice(BODY_ATOMS) + '\n\n'
         style = 'setext' if (level <= 2 and rng.random() < 0.3 and '\t' not in title) else 'atx'
+        if style == 'setext' and rng.random() < 0.3:
+            title = title + '\n' + ' '.join(rng.sample(TITLE_WORDS, rng.randint(1, 2))) + ' b%d' % i      # a Setext title may span lines
         sections.append(dict(level=level, title=title, body=body, style=style, closing=rng.random() < 0.5))
     pre = ''
     if rng.random() < 0.6 or not sections:
@@ -184,6 +186,26 @@ def check_roundtrip(r, s, d, opml, via):
             return
 
 
+def check_import_api(r, s, d, opml):
+    """the three import entry points give the same text; the engine variant leaves its source alone and answers the same when asked again"""
+    outs = {}
+    for fam in range(3):
+        flags = fam | (0 << 4) | (0x100 if fam == 2 else 0)
+        rq = D.req_to_json('asan', 'IMPORT', 0, D.EXT_CLI, 0, flags, [opml])
+        rep = s.call('asan', *D.req_from_json(rq), crash_is_violation=False)
+        r.evaluations += 1
+        if rep is None or rep.status:
+            return
+        outs[fam] = rep.out
+        if 'srcmod:' in rep.diag:
+            r.violate('import:source-modified:%s' % ['string', 'd_string', 'engine'][fam], 'the OPML source changed during mmd_%s_convert_opml_to_text' % ['string', 'd_string', 'engine'][fam], dict(requests=[rq]))
+        if 'import-twice-differs' in rep.diag:
+            r.violate('import:engine-second-call-differs', 'mmd_engine_convert_opml_to_text answers differently the second time on the same engine (%s)' % rep.diag, dict(requests=[rq]))
+    r.stats['import_api_triples_compared'] += 1
+    if len(set(outs.values())) > 1:
+        r.violate('import:variants-differ', 'string / DString / engine variants of convert_opml_to_text disagree', dict(requests=[D.req_to_json('asan', 'IMPORT', 0, D.EXT_CLI, 0, f, [opml]) for f in range(3)]))
+
+
 def check_inverse(r, s, rng):
     n = rng.randint(1, 12)
     t = ''.join(rng.choice(BODY_ATOMS + ['&', '<', '>', '"', "'", '\n', '\t', '\r', '&amp;amp;', '&#13;', '&quot;', ' ']) for _ in range(n))
@@ -214,6 +236,8 @@ def work(job):
             opml = check_export(r, s, d)
             if opml is not None and nested and '\r' not in d.src.decode('utf-8'):
                 check_roundtrip(r, s, d, opml, 'opml')
+                if i % 3 == 0:
+                    check_import_api(r, s, d, opml)
                 if i % 4 == 0:
                     rep = s.call('asan', 'CONVERT', D.FMT['itmz'], D.EXT_CLI, 0, 1 | (1 << 4), [d.src], crash_is_violation=False)
                     r.evaluations += 1
